@@ -65,3 +65,76 @@ Theorem C19_import_ill_formed_refuted : exists c file st,
   T_is_err (fst (exec_op (OImport c file) st)) = true /\ r_db (snd (exec_op (OImport c file) st)) <> r_db st.
 Proof. exact import_not_atomic_refuted. Qed.
 Print Assumptions C19_import_ill_formed_refuted.
+
+(* ---- end to end, at operation level (Spec/CompositeSpec.v, Proofs/CompositeProofs.v): Export answers the collection's documents and changes nothing; Import is characterised exactly by s_import (also what a failed import leaves behind: K-composite); importing the exported file under a new name reproduces ids and field sets with JSON-typed values; a document with _expiresAt makes that import fail (K-expires) ---- *)
+From Clover Require Import CompositeSpec CompositeProofs.
+Theorem C19_export_refines : forall db h c, wf_db db -> R db (durable h) -> closed h = false ->
+  snd (step h (OExport c)) = h /\
+  match assoc c db with
+  | None => fst (step h (OExport c)) = T_err ECollNotExist
+  | Some sc => fst (step h (OExport c)) = T_ok (T_of_docs [] 0 (docs_by_id sc))
+  end.
+Proof. exact export_refines_exact. Qed.
+Print Assumptions C19_export_refines.
+
+Theorem C19_import_refines : forall db h c file,
+  wf_db db -> R db (durable h) -> closed h = false -> op_dom_all db (OImport c file) ->
+  let '(r, db') := s_import c file db in
+  fst (step h (OImport c file)) = T_unit r /\ wf_db db' /\ R db' (durable (snd (step h (OImport c file)))).
+Proof. exact import_refines. Qed.
+Print Assumptions C19_import_refines.
+
+Theorem C19_export_then_import : forall (fmt : Z -> Z -> Z -> bytes), forall db h c c' sc,
+    wf_db db -> R db (durable h) -> closed h = false -> no_semi c = true -> no_semi c' = true ->
+    assoc c db = Some sc -> assoc c' db = None ->
+    (forall id d, In (id, d) (sc_docs sc) -> doc_has expires_field d = false) ->
+    fst (step h (OExport c)) = T_ok (T_of_docs [] 0 (docs_by_id sc)) /\ snd (step h (OExport c)) = h /\
+    let file := FElems (map (fun d => Some (json_doc fmt d)) (docs_by_id sc)) in
+    exists db', fst (step h (OImport c' file)) = T_unit (Ok tt) /\ wf_db db' /\
+      R db' (durable (snd (step h (OImport c' file)))) /\
+      (forall c0, c0 <> c' -> assoc c0 db' = assoc c0 db) /\
+      exists sc', assoc c' db' = Some sc' /\ sc_idx sc' = [] /\
+        Permutation (map fst (sc_docs sc')) (map fst (sc_docs sc)) /\
+        forall id d, assoc id (sc_docs sc) = Some d -> assoc id (sc_docs sc') = Some (json_doc fmt d).
+Proof. exact export_then_import. Qed.
+Print Assumptions C19_export_then_import.
+
+Theorem C19_roundtrip_any_file_order : forall (fmt : Z -> Z -> Z -> bytes), forall db h c c' sc l,
+    wf_db db -> R db (durable h) -> closed h = false -> no_semi c = true -> no_semi c' = true ->
+    assoc c db = Some sc -> assoc c' db = None ->
+    (forall id d, In (id, d) (sc_docs sc) -> doc_has expires_field d = false) ->
+    Permutation l (sc_docs sc) ->
+    let file := FElems (map (fun idd => Some (json_doc fmt (snd idd))) l) in
+    exists db', fst (step h (OImport c' file)) = T_unit (Ok tt) /\ wf_db db' /\
+      R db' (durable (snd (step h (OImport c' file)))) /\
+      (forall c0, c0 <> c' -> assoc c0 db' = assoc c0 db) /\
+      exists sc', assoc c' db' = Some sc' /\ sc_idx sc' = [] /\
+        map fst (sc_docs sc') = map fst l /\
+        forall id d, assoc id (sc_docs sc) = Some d -> assoc id (sc_docs sc') = Some (json_doc fmt d).
+Proof. exact export_import_roundtrip_any_order. Qed.
+Print Assumptions C19_roundtrip_any_file_order.
+
+Theorem C19_expires_fails : forall (fmt : Z -> Z -> Z -> bytes), forall db h c c' sc id d s n o,
+    wf_db db -> R db (durable h) -> closed h = false -> no_semi c = true -> no_semi c' = true ->
+    assoc c db = Some sc -> assoc c' db = None ->
+    In (id, d) (sc_docs sc) -> obj_get expires_field d = Some (VTime s n o) ->
+    let file := FElems (map (fun idd => Some (json_doc fmt (snd idd))) (sc_docs sc)) in
+    exists e, fst (step h (OImport c' file)) = T_err e /\
+      wf_db (db ++ [(c', mkSC [] [])]) /\
+      R (db ++ [(c', mkSC [] [])]) (durable (snd (step h (OImport c' file)))).
+Proof. exact export_import_expires_fails. Qed.
+Print Assumptions C19_expires_fails.
+
+Theorem C19_expires_refuted :
+  ~ (forall (fmt : Z -> Z -> Z -> bytes) db h c c' sc,
+       wf_db db -> R db (durable h) -> closed h = false -> no_semi c = true -> no_semi c' = true ->
+       assoc c db = Some sc -> assoc c' db = None ->
+       let file := FElems (map (fun idd => Some (json_doc fmt (snd idd))) (sc_docs sc)) in
+       exists db', fst (step h (OImport c' file)) = T_unit (Ok tt) /\ wf_db db' /\
+         R db' (durable (snd (step h (OImport c' file)))) /\
+         (forall c0, c0 <> c' -> assoc c0 db' = assoc c0 db) /\
+         exists sc', assoc c' db' = Some sc' /\ sc_idx sc' = [] /\
+           map fst (sc_docs sc') = map fst (sc_docs sc) /\
+           forall id d, assoc id (sc_docs sc) = Some d -> assoc id (sc_docs sc') = Some (json_doc fmt d)).
+Proof. exact export_import_expires_refuted. Qed.
+Print Assumptions C19_expires_refuted.
